@@ -264,7 +264,7 @@ def evaluate(ctx, b, schemas, labels, norders, tag):
         nsub = {str(num[n]): [str(num[s]) for s in v] for n, v in sub_order.items()}
         mlines = ["tree " + G.show_collect([num_tree(t, num) for t in trees]),
                   "mult " + " ".join(str(num[n]) for n in sorted(ms)),
-                  G.enc_schema(nschema, nsub), "collect", "wf", "implok"]
+                  G.enc_schema(nschema, nsub), "collect", "wf", "implok", "forest"]
         for X in subsets:
             xs = " ".join(str(num[n]) for n in X)
             mlines += ["legal " + xs, "eval " + xs]
@@ -308,12 +308,22 @@ def evaluate(ctx, b, schemas, labels, norders, tag):
             problems.append(("correspondence", k, {"what": "emitted tree does not have the shape C08_no_crash assumes (headWF): " + tree_line}))
         if mout[5] != "I 1":
             problems.append(("correspondence", k, {"what": "hypothesis ImplicitAgree of C08_head_meaning fails for this schema (addImplicitSubs and the declarations disagree on the implicit subtypes)"}))
+        # hypothesis ForestWF of C08_eval_legal_partial: must hold exactly for the generated single-supertype schemas
+        # without an ABSTRACT entity that has no subtype
+        subs_map0 = G.subs_of(schema)
+        expect_forest = (not ms) and not any(e["abstract"] and not subs_map0[e["name"]] for e in schema)
+        if (mout[6] == "F 1") != expect_forest:
+            problems.append(("correspondence", k, {"what": f"ForestWF (hypothesis of C08_eval_legal_partial) is {mout[6]} for this schema, expected {expect_forest}"}))
+        if expect_forest:
+            ctx.hist("schemas", "forest (C08_eval_legal_partial applies)")
+        else:
+            ctx.hist("schemas", "outside the forest fragment")
         leaves_all = {n for t in trees for n in all_nodes(t) if isinstance(n, str)}
         if not ms <= leaves_all:
             problems.append(("correspondence", k, {"what": f"entities with several supertypes {sorted(ms - leaves_all)} occur in no list of {tree_line} (coverage hypothesis of C08_no_crash)"}))
-        legal = [mout[6 + 2 * i] == "L 1" for i in range(len(subsets))]
-        evalv = [mout[7 + 2 * i] == "E 1" for i in range(len(subsets))]
-        mq = mout[6 + 2 * len(subsets):]
+        legal = [mout[7 + 2 * i] == "L 1" for i in range(len(subsets))]
+        evalv = [mout[8 + 2 * i] == "E 1" for i in range(len(subsets))]
+        mq = mout[7 + 2 * len(subsets):]
         subs_map = G.subs_of(schema)
         abstract_leaves = {e["name"] for e in schema if e["abstract"] and not subs_map[e["name"]]}
         for xi, X in enumerate(subsets):
